@@ -66,6 +66,11 @@ CHECKS = {
    text="TLC proves on the scaled model (3-bit labels, all Delta, choices, challenge coefficients, flips incl. padding rows) the exact acceptance condition of a single flip; on the real code each coordinate of the extension matrix of the payload batch (n = 1, 8, 9, 129) and of the 256-row check batch - all 152k of them in the thorough tier, a seeded 2% in quick - is flipped in transit, the sender's accept/abort and the correlation of its outputs for the original choices are recorded with Delta known to the harness, and TLC validates every outcome; honest runs up to n = 2049 must be accepted; altered response labels must be rejected.",
    note="Trusts TLC; chi_row = 0 (probability 2^-128) is excluded; mul128 is exercised only through the check's observable outcome.",
    ref="5 C15"),
+ "C20": dict(
+   technique="TLA+ spec Shares.tla (VOLE, Fx, Fxk relations as coded, incl. unreduced wire values) model-checked by TLC over all field elements of small primes and all bits/labels; real vole and bmr.Fx*/Fxk* runs over CO OT with every element checked, small-modulus and Fx/Fxk events validated by TLC against SharesTrace.tla; concurrent instances under the race detector",
+   text="TLC checks u - r = x*y mod p with range conditions for every (p, x, y, r) of five small primes, and the Fx/Fxk share equations for all bits and 3-bit labels; on the real code VOLE sessions of 2-3 Mul calls (lengths 1..2000 across chunk boundaries; P-256 prime, 2^255-19, 2^256-189, 65537, small primes, also changing between calls; elements 0, 1, p-1, short, random) are verified element-wise with math/big, and the recorded small-modulus elements and all Fx/Fxk runs (all (a,b), boundary labels) by TLC; Fx/Fxk also run from 8 concurrent instances and under the race detector.",
+   note="Trusts TLC, math/big for 256-bit moduli, the Go race detector for the overlap of concurrent instances.",
+   ref="5 C20"),
 }
 
 NOT_APPLICABLE = {}
